@@ -70,7 +70,7 @@ def ledger_entries(sem, effects, cells):
             out.append({"vis": vis, "bb": bb, "cell": cell, "field": None, "key": sem.label(key) if key is not None else None,
                         "kexpr": key, "what": ("absolute", None), "kind": kind})
             continue
-        wv = sem.written_value(kind, cell, val)
+        wv = sem.written_value(kind, cell, val, True, key)
         if wv is None:
             out.append({"vis": vis, "bb": bb, "cell": cell, "field": None, "key": None, "kexpr": key, "what": ("absolute", None), "kind": kind})
             continue
